@@ -138,6 +138,8 @@ CHAINS = {
     "merge_bcast": lambda x: x.merge(_small2(x), on="a", how="inner", broadcast=True),
     "shuffle": lambda x: x.shuffle("a"),
     "shuffle_np": lambda x: x.shuffle("a", npartitions=4),
+    "shuffle_staged": lambda x: x.shuffle("a", max_branch=2),            # staged task shuffle (selection of > max_branch outputs)
+    "shuffle_staged_more": lambda x: x.shuffle("a", npartitions=x.npartitions + 2, max_branch=2),
     "set_index": lambda x: x.set_index("c"),
     "sort_values": lambda x: x.sort_values("c"),
     "cumsum": lambda x: x[["a", "b"]].cumsum(),
@@ -190,7 +192,7 @@ def run_case(case):
         counters[k] = counters.get(k, 0) + v
 
     rng = derive_rng("C11", case["seed"], case["source"], case["chain"], case["sel"])
-    method = "disk" if (case["chain"].startswith("shuffle") or case["chain"] in ("set_index", "sort_values")) and rng.random() < 0.3 else "tasks"
+    method = "disk" if (case["chain"] in ("shuffle", "shuffle_np", "set_index", "sort_values")) and rng.random() < 0.3 else "tasks"
     with dask.config.set({"dataframe.shuffle.method": method}):
         if case["source"] == "timeseries" and case["chain"] in ("set_index", "sort_values"):
             return {"status": "undecided", "counters": {"skipped_tied_sort_keys": 1}}  # generated key column has ties: order among ties undefined
